@@ -294,10 +294,17 @@ func ParseSpendPolicy(s string) (SpendPolicy, error) {
 	var err error // sticky
 	nextToken := func() string {
 		s = strings.TrimSpace(s)
-		i := strings.IndexAny(s, "(),[]")
+		// a token may begin with a quoted specifier, which can itself contain
+		// delimiter characters
+		var quoted int
+		if q, qerr := strconv.QuotedPrefix(s); qerr == nil {
+			quoted = len(q)
+		}
+		i := strings.IndexAny(s[quoted:], "(),[]")
 		if err != nil || i == -1 {
 			return ""
 		}
+		i += quoted
 		t := s[:i]
 		s = s[i:]
 		return strings.TrimSpace(t)
